@@ -399,6 +399,9 @@ sim::RunResult run(const Json& sc) {
     if (label == "pristine" && !rfault && declared_equal && cfg.script.empty() && cfg.options_rv == 0) bump(st, res.rc == 0 ? "pristine_ok" : "pristine_rejected");
   }
   r.fingerprint = sim::fnv1a(bytes, res.hash) ^ sr.hash;
+  // a value delivered although the file does not hold it is whatever the reader's buffer held (uninitialised bytes of the code
+  // under test): the fingerprint of such a run keeps to what is reproducible - the file, the return code, the verdict
+  if (r.verdict == "TRUNCATED_VALUE_ACCEPTED" || r.verdict == "PREFIX_CONTRADICTED") r.fingerprint = sim::fnv1a(bytes, sim::fnv1a(r.sig + std::to_string(res.rc)));
   r.trace_sig = ts;
   r.nontrivial = damaged || wfaulted || rfault || !declared_equal || !cfg.script.empty();
   if (r.verdict == "OK") r.sig = "";
